@@ -337,11 +337,17 @@ func (x *Exec) binary(e *ast.BinaryExpr, st *State) Value {
 		n0 := len(st.assume)
 		st.add(g)
 		n1 := len(st.assume)
+		f0 := x.frontier(st)
 		b := x.cond(e.Y, st)
 		learnt := append([]*Term(nil), st.assume[n1:]...)
 		st.assume = st.assume[:n0]
 		for _, f := range learnt {
 			st.add(Implies(g, f))
+		}
+		if f1 := x.frontier(st); f1 != f0 {
+			// allocations in Y happen only when Y is evaluated: the frontier
+			// stays where it was otherwise (keeps it monotone)
+			st.ghosts["$frontier"] = Sc{Ite(g, f1, f0)}
 		}
 		if e.Op == token.LAND {
 			return Sc{And(a, b)}
